@@ -126,6 +126,12 @@ pub trait Prop: Sync {
     fn owns_crash(&self) -> bool {
         false
     }
+    /// For a property whose very subject is reproducibility (C20) a failure that does not replay
+    /// identically is still a failure: the replay rule then only requires that some replay shows a
+    /// failure of the same kind.
+    fn nondeterminism_is_violation(&self) -> bool {
+        false
+    }
 }
 
 // ------------------------------------------------------------------------------------------------
@@ -785,8 +791,10 @@ pub fn check_main(prop: &dyn Prop, tier: Tier, verif_root: &Path) -> i32 {
         if f.kind != "crash" {
             let a = replay_once(&bin, id, tier, cfg, *seg, *idx);
             let b = replay_once(&bin, id, tier, cfg, *seg, *idx);
+            let kind_json = format!("\"kind\":{}", serde_json::to_string(&f.kind).unwrap());
             match (&a, &b) {
                 (Ok(a), Ok(b)) if a == b && a.contains(&serde_json::to_string(&f.key).unwrap()) => {}
+                (Ok(a), Ok(b)) if prop.nondeterminism_is_violation() && (a.contains(&kind_json) || b.contains(&kind_json)) => {}
                 _ => {
                     eprintln!("MACHINERY-ERROR property={id}: replay of {cfg}/{segname}/{idx} diverged or did not reproduce {:?}: {:?} vs {:?}", f.key, a, b);
                     nondet = true;
